@@ -72,7 +72,7 @@ def handle (args : List String) : String :=
       | .error _ => "err:immediate"
   | ["jwk", v] =>
     if v == "priv" then "err:handler" else if v == "garbage" then "err:parse" else
-    if v != "ed" && v != "edalg" && v != "p256" then "bad-request" else
+    if v != "ed" && v != "edalg" && v != "edx5" && v != "p256" then "bad-request" else
     let doc := expandDidJwk 1 77
     let mid : Id := ⟨1, 0, some 0⟩
     let key := match doc.vm with | [m] => m.body == 77 && m.id == mid | _ => false
